@@ -195,7 +195,7 @@ structure Rd where
   ignoreComments : Bool
   omp : Bool
   includeDirs : List Str
-deriving Repr
+deriving Repr, DecidableEq
 
 def Rd.sourceLines (r : Rd) : List Str := r.linesRev.reverse
 
